@@ -218,6 +218,11 @@ def invalidation(repo, res):
         res.check(n_del >= 1 and not bad_tests, "_forget_prefixed:recogniser", fp.where(), "a derived row is recognised by recomputing it as the lookup wrote it (entry scale * prefix value, compared with ==); a test that divides the prefix back out misses rows for which (v*p)/p != v in floating point, and those keep the old definition after modify / add / remove", "derived[:3] == (entry[0] * prefix_value, entry[1], entry[2])", bad_tests[:2], rid=r2)
     # define_unit goes through add
     du = repo.mod(UO).func("define_unit")
+    # ... and refuses a symbol the registry already *resolves*: `symbol in registry` asks UnitRegistry.__contains__, which
+    # also recognises prefix + prefixable-symbol spellings whether or not their derived row has been stored yet; a test
+    # against the raw table (registry.lut) makes the answer depend on earlier lookups
+    guards_ = [n for n in ast.walk(du.node) if isinstance(n, ast.Compare) and len(n.ops) == 1 and isinstance(n.ops[0], (ast.In, ast.NotIn)) and norm(n.left) == du.params[0]]
+    res.check(len(guards_) == 1 and norm(guards_[0].comparators[0]) == "registry", "define_unit:exists-guard", du.where(guards_[0]) if guards_ else du.where(), "define_unit must test `symbol in registry` (the registry's own resolution, prefixed spellings included): membership in the raw table depends on which prefixed units were looked up before, so the same define_unit call is refused or accepted depending on history", "symbol in registry", [norm(g) for g in guards_], rid=r2)
     calls = [norm(c.func) for c in ast.walk(du.node) if isinstance(c, ast.Call)]
     res.check("registry.add" in calls and not any(".lut[" in norm(n) for n in ast.walk(du.node) if isinstance(n, ast.Assign)), "define_unit", du.where(), "define_unit edits the registry only through add()", rid=r2)
 
